@@ -760,3 +760,68 @@ Proof.
   repeat split; try (vm_compute; reflexivity).
   intros m Hin Hm. vm_compute in Hin. destruct Hin as [Hin|[Hin|[]]]; subst m; cbn in *; discriminate.
 Qed.
+
+(* ---- the REST list layer ------------------------------------------------------------ *)
+
+(* for a non-admin caller every request that passes the policy gates reaches the db layer with insecure = False
+   (checked over the four shapes of a request: all_projects yes/no x project_id filter yes/no) *)
+Definition ep_safe (ic : list icond) (ep : list_ep) : bool :=
+  forallb (fun ap : bool * bool => let '(allp, pid) := ap in
+             negb (rule_ok (le_rule ep) false)
+             || (gate_fires (le_gate ep) allp pid && negb (rule_ok (le_allp_rule ep) false))
+             || negb (rest_insecure ic ep allp pid false))
+          [(false, false); (false, true); (true, false); (true, true)].
+
+Lemma ep_safe_spec : forall ic ep allp pid,
+  ep_safe ic ep = true ->
+  rule_ok (le_rule ep) false = true ->
+  gate_fires (le_gate ep) allp pid && negb (rule_ok (le_allp_rule ep) false) = false ->
+  rest_insecure ic ep allp pid false = false.
+Proof.
+  intros ic ep allp pid H Hr Hg. unfold ep_safe in H. rewrite forallb_forall in H.
+  assert (Hin : In (allp, pid) [(false, false); (false, true); (true, false); (true, true)])
+    by (destruct allp, pid; cbn; tauto).
+  specialize (H (allp, pid) Hin). cbn beta iota in H. rewrite Hr, Hg in H. cbn [negb orb] in H.
+  apply negb_true_iff in H. exact H.
+Qed.
+
+(* a non-admin list result contains only rows the caller may see: own, public, shared through an accepted
+   membership - for every request (all_projects, project_id of any project, name filter), every database *)
+Theorem rest_list_isolated : forall ic ep q d c r l x,
+  ep_safe ic ep = true -> q_secure q = true -> c_admin c = false ->
+  rest_list ic ep q d c r = LOk l -> In x l ->
+  In x (rows d) /\ visible d c x = true.
+Proof.
+  intros ic ep q d c r l x Hs Hq Hc Hl Hx. unfold rest_list in Hl. rewrite Hc in Hl.
+  destruct (rule_ok (le_rule ep) false) eqn:Hr; cbn [negb] in Hl; [|discriminate].
+  destruct (gate_fires (le_gate ep) (lq_allp r) (is_some (lq_pid r)) && negb (rule_ok (le_allp_rule ep) false)) eqn:Hg;
+    [discriminate|].
+  rewrite (ep_safe_spec ic ep _ _ Hs Hr Hg) in Hl. injection Hl as Hl. subst l.
+  apply filter_In in Hx. destruct Hx as [Hx _].
+  apply (candidates_visible (mkFetch q SelAll)) in Hx; try assumption. reflexivity.
+Qed.
+
+(* and an endpoint that is not safe leaks: a witness request for every such endpoint over a filtered list query *)
+Definition leak_d (m : model) : db := mkDb [mkRes 7 m 1 Private 7 0 5 false] [].
+
+Lemma rest_unsafe_leaks : forall ic ep q,
+  ep_safe ic ep = false -> q = QAdminArg ->
+  exists r, rest_list ic ep q (leak_d (le_model ep)) (mkCtx 2 false) r = LOk [mkRes 7 (le_model ep) 1 Private 7 0 5 false].
+Proof.
+  intros ic ep q H Hq. subst q. unfold ep_safe in H.
+  assert (Hex : exists allp pid, rule_ok (le_rule ep) false = true /\
+            gate_fires (le_gate ep) allp pid && negb (rule_ok (le_allp_rule ep) false) = false /\
+            rest_insecure ic ep allp pid false = true).
+  { cbn [forallb] in H. repeat rewrite andb_false_iff in H.
+    destruct H as [H|[H|[H|[H|H]]]]; try discriminate;
+      repeat (apply orb_false_iff in H; destruct H as [H ?]);
+      repeat match goal with X : negb _ = false |- _ => apply negb_false_iff in X end;
+      eexists _, _; repeat split; eassumption. }
+  destruct Hex as [allp [pid [Hr [Hg Hi]]]].
+  exists (mkLreq allp (if pid then Some 1 else None) None).
+  unfold rest_list. cbn [c_admin lq_allp lq_pid].
+  assert (Hp : is_some (if pid then Some 1 else None) = pid) by (destruct pid; reflexivity).
+  rewrite Hp, Hr, Hg, Hi. cbn [negb]. f_equal.
+  destruct ep as [m fn ru g ar pa pp]. cbn [le_model le_pass_pid rest_args].
+  destruct m, pp, pid; reflexivity.
+Qed.
